@@ -83,6 +83,14 @@ func (p *Parser) NewInput(s io.RuneScanner) {
 	p.lexer.AddNextStream(s)
 }
 
+// EndInput tells the parser that no further piece will follow the input
+// given so far. The end of the input terminates a pending atom or
+// line comment exactly like a newline would; without this the last
+// token of a text that does not end in whitespace stays in the lexer.
+func (p *Parser) EndInput() {
+	p.lexer.AddNextStream(strings.NewReader("\n"))
+}
+
 func (p *Parser) ResetAddNewInput(s io.RuneScanner) {
 	p.next = nil
 	if p.stop != nil {
